@@ -252,6 +252,8 @@ ASMJIT_END_NAMESPACE
 // 8-bit hash codes (collisions included; wider codes put the reciprocal-modulo multiplier out of the SAT back end's reach,
 // see h_hash_mod), chained in any order an insertion history could produce.
 static const unsigned HN = 5;
+// reference remainder for 8-bit codes by shift-and-subtract (a divider circuit next to the code's multiplier is needlessly hard for SAT)
+static inline uint32_t ref_mod(uint32_t code, uint32_t nb) { uint32_t r = code; for (int k = 7; k >= 0; k--) if (r >= (nb << k)) r -= nb << k; return r; }
 // Nodes and the bucket array are separate objects (a store through a pointer with a symbolic offset rewrites the whole
 // object it points into: keep those objects small).
 struct HState {
@@ -271,7 +273,7 @@ static inline void hash_build(ArenaHash<HNode>& t, HState& s) {
   const unsigned limit = EMBEDDED ? 1 : 4;
   for (unsigned i = 0; i < 4; i++) {
     if (s.count < limit && nondet_bool()) {
-      uint32_t b = s.nd[i]->_hash_code % t._buckets_count;
+      uint32_t b = ref_mod(s.nd[i]->_hash_code, t._buckets_count);
       s.nd[i]->_hash_next = t._data[b]; t._data[b] = s.nd[i]; s.in[i] = true; s.count++;
     }
   }
@@ -294,14 +296,14 @@ __attribute__((noinline)) static void hash_check(ArenaHash<HNode>& t, HState& s)
       bool known = false;
       for (unsigned i = 0; i < HN; i++) if (q == s.nd[i]) { known = s.in[i]; preds[i]++; }
       V_ASSERT(known, "hash: a bucket head is a member");
-      V_ASSERT(q->_hash_code % t._buckets_count == b, "hash: a bucket head sits in the bucket of its hash code");
+      V_ASSERT(ref_mod(q->_hash_code, t._buckets_count) == b, "hash: a bucket head sits in the bucket of its hash code");
     }
   }
   for (unsigned i = 0; i < HN; i++) if (s.in[i] && s.nd[i]->_hash_next) {
     ArenaHashNode* q = s.nd[i]->_hash_next; bool known = false;
     for (unsigned j = 0; j < HN; j++) if (q == s.nd[j]) { known = s.in[j] && j != i; preds[j]++; }
     V_ASSERT(known, "hash: the successor of a member is another member");
-    V_ASSERT(q->_hash_code % t._buckets_count == s.nd[i]->_hash_code % t._buckets_count, "hash: chained nodes share the bucket");
+    V_ASSERT(ref_mod(q->_hash_code, t._buckets_count) == ref_mod(s.nd[i]->_hash_code, t._buckets_count), "hash: chained nodes share the bucket");
   }
   for (unsigned i = 0; i < HN; i++) if (s.in[i]) V_ASSERT(preds[i] == 1, "hash: every member is linked exactly once");
   for (unsigned i = 0; i < HN; i++) {
@@ -330,10 +332,11 @@ static void hash_step() {
     V_ASSERT(r == s.nd[4], "hash: insert returns the node");
     bool grows = s.count + 1 > (EMBEDDED ? 1u : uint32_t(nb0 * 0.9));
     if (grows) {
+      if (!EMBEDDED && PIDX == 1) V_ASSERT(false, "hash: an 11-bucket table does not grow at 5 nodes");
       const unsigned pi = (EMBEDDED ? 0 : PIDX) + 2;
       V_ASSERT(t._buckets_count == ArenaHash_prime_array[pi].prime && t._data != t._embedded && t._data != s.buckets && t._prime_index == pi && t._buckets_grow == uint32_t(t._buckets_count * 0.9), "hash: insert beyond the threshold moves to the prime two steps up");
-      V_WITNESS("hash-insert-rehash");
-    } else { V_ASSERT(t._buckets_count == nb0 && t._data == (EMBEDDED ? t._embedded : s.buckets), "hash: insert below the threshold keeps the bucket array"); V_WITNESS("hash-insert"); }
+      if (EMBEDDED || PIDX == 0) V_WITNESS("hash-insert-rehash");
+    } else { V_ASSERT(t._buckets_count == nb0 && t._data == (EMBEDDED ? t._embedded : s.buckets), "hash: insert below the threshold keeps the bucket array"); if (EMBEDDED || PIDX == 1) V_WITNESS("hash-insert"); }
   } else if (op == 1) {
     unsigned v = nondet_u8() % HN;
     HNode* r = t.remove(arena, s.nd[v]);
